@@ -28,7 +28,7 @@ class PureFunction(object):
         # restore stack stores list of (objparams, identical)
         # everytime the objparams are set, it will store the old objparams
         # and indication if the old and new objparams are identical
-        self._restore_stack: List[Tuple[List, bool]] = []
+        self._restore_stack: List[Tuple[List, List, bool]] = []
 
     def __call__(self, *params):
         return self._fcntocall(*params)
@@ -42,6 +42,13 @@ class PureFunction(object):
         pass
 
     def objparams(self) -> List:
+        if len(self._restore_stack) == 0:
+            # not within a substitution: the object might have been given other
+            # tensors (or a different sharing of tensors between its slots)
+            # since this pure function was created or last used
+            self._allobjparams = self._get_all_obj_params_now()
+            self._uniq = Uniquifier(self._allobjparams)
+            self._cur_objparams = self._uniq.get_unique_objs()
         return self._cur_objparams
 
     def _get_all_obj_params_now(self):
@@ -53,27 +60,30 @@ class PureFunction(object):
         # pure function was created or last used (e.g. if it was created while
         # another pure function of the same object had its parameters
         # substituted), so take the current parameters from the object
-        self._cur_objparams = self._uniq.get_unique_objs(self._get_all_obj_params_now())
-        identical = _check_identical_objs(objparams, self._cur_objparams)
-        self._restore_stack.append((self._cur_objparams, identical))
+        # the tensors of all slots are kept for the restoration, so that it does
+        # not depend on which slots share a tensor
+        allobjparams_now = self._get_all_obj_params_now()
+        allobjparams = self._uniq.map_unique_objs(objparams)
+        identical = _check_identical_objs(allobjparams, allobjparams_now)
+        self._restore_stack.append((allobjparams_now, self._cur_objparams, identical))
         if not identical:
-            allobjparams = self._uniq.map_unique_objs(objparams)
             self._set_all_obj_params(allobjparams)
             self._cur_objparams = list(objparams)
 
     def restore_objparams(self):
-        old_objparams, identical = self._restore_stack.pop(-1)
+        old_allobjparams, old_objparams, identical = self._restore_stack.pop(-1)
         if not identical:
-            allobjparams = self._uniq.map_unique_objs(old_objparams)
-            self._set_all_obj_params(allobjparams)
+            self._set_all_obj_params(old_allobjparams)
             self._cur_objparams = old_objparams
 
     @contextmanager
     def useobjparams(self, objparams: List):
         if not self._state_change_allowed:
             raise RuntimeError("The state change is disabled")
+        # (outside the try block: if the parameters cannot be set, there is
+        # nothing to restore)
+        self.set_objparams(objparams)
         try:
-            self.set_objparams(objparams)
             yield
         finally:
             self.restore_objparams()
